@@ -41,9 +41,17 @@ def get_func_in_module(module: str, qualname: str) -> Callable[..., Any]:
             raise InvalidTypeError(f"Property {module}.{qualname} is missing getter")
     elif cached_property and isinstance(func, cached_property):
         func = func.func
-    elif not isinstance(func, (types.FunctionType, types.BuiltinFunctionType)):
+    if not isinstance(func, (types.FunctionType, types.BuiltinFunctionType)):
+        # also the getter of a property, which can be any callable
         raise InvalidTypeError(
             f"{module}.{qualname} is of type '{type(func)}', not function."
+        )
+    if "<locals>" in func.__qualname__:
+        # The name is bound to a function made by another function (a closure,
+        # the wrapper of a decorator that does not use functools.wraps). It
+        # cannot be found under its own name again and has no place in a stub.
+        raise InvalidTypeError(
+            f"{module}.{qualname} is the function {func.__qualname__}, defined inside another function."
         )
     if isinstance(func, types.BuiltinFunctionType):
         # A stub needs the function's module and signature; not every builtin
